@@ -171,9 +171,10 @@ theorem ne_nil_of_val_lt {a p : List Nat} (hl : a.length = p.length) (h : val a 
   have : p = [] := List.length_eq_zero_iff.mp hl.symm
   subst this; simp at h
 
-theorem addMod_spec {a b p : List Nat} (ha : WF a) (hb : WF b) (hp : WF p)
+/-- `add_mod` is exact as soon as the exact sum is below `2p` (`b < p` is not needed: `add_mod(x, 1, 1)` is fine). -/
+theorem addMod_spec_sum {a b p : List Nat} (ha : WF a) (hb : WF b) (hp : WF p)
     (hab : a.length = b.length) (hap : a.length = p.length)
-    (hav : val a < val p) (hbv : val b < val p) :
+    (hav : val a < val p) (hsum : val a + val b < 2 * val p) :
     (val (addMod a b p) = (val a + val b) % val p ∧ WF (addMod a b p) ∧ (addMod a b p).length = a.length) ∧
     bAddMod a b p = addMod a b p := by
   have s := uadc_spec a b 0 hab
@@ -192,6 +193,13 @@ theorem addMod_spec {a b p : List Nat} (ha : WF a) (hb : WF b) (hp : WF p)
   rw [Nat.add_zero] at s
   rw [s] at this
   exact this
+
+theorem addMod_spec {a b p : List Nat} (ha : WF a) (hb : WF b) (hp : WF p)
+    (hab : a.length = b.length) (hap : a.length = p.length)
+    (hav : val a < val p) (hbv : val b < val p) :
+    (val (addMod a b p) = (val a + val b) % val p ∧ WF (addMod a b p) ∧ (addMod a b p).length = a.length) ∧
+    bAddMod a b p = addMod a b p :=
+  addMod_spec_sum ha hb hp hab hap hav (by omega)
 
 theorem shl1_spec {a : List Nat} (ha : WF a) :
     val (shl1 a).1 + B ^ a.length * (shl1 a).2 = 2 * val a ∧ WF (shl1 a).1 ∧
